@@ -14,6 +14,15 @@ def machine : Machine Nat Unit where
   op c args :=
     match args with
     | ["shape"] => (c, "shape rmw add=1 static=1")
+    | ["wrap", d, n] =>
+      match d.toNat?, n.toNat? with
+      | some d, some n =>
+        if 1 ≤ d ∧ d ≤ 1048576 ∧ n ≤ 64 then
+          -- the code's counter is a `usize` (64 bit on the checked target): `stepW 64`
+          let s := _root_.C03.runW 64 { ctr := 2 ^ 64 - d } (List.replicate n 0)
+          (c, s!"w=64 ids={",".intercalate ((_root_.C03.ids s).map toString)}")
+        else (c, "bad-op")
+      | _, _ => (c, "bad-op")
     | ["stress", t, k, _] =>
       match t.toNat?, k.toNat? with
       | some t, some k =>
@@ -31,6 +40,12 @@ def machine : Machine Nat Unit where
   spec _ args outs :=
     match args with
     | ["shape"] => ((), if _root_.C03.specShape outs then "ok" else "FAIL:alloc_shape")
+    | "wrap" :: _ =>
+      match outs with
+      | [_, ids] =>
+        let l := ((ids.drop 4).toString.splitOn ",").filter (· ≠ "")
+        ((), if _root_.C03.specWrap l then "ok" else "FAIL:duplicate_id_at_wrap")
+      | _ => ((), "FAIL:unparsable")
     | "stress" :: _ =>
       match outs with
       | [n, d, _] =>
